@@ -395,6 +395,95 @@ var edits = []progEdit{
 		}
 		return nil, "", false
 	}},
+	{"semantic:change-array-depth-of-parameter", true, func(p *Prog, plan *Tape) (*Prog, string, bool) {
+		// T[] <-> T[][], map<T> <-> map<T[]>, T <-> T[] (file types included) on a stage
+		// output nothing refers to, or on a stage input bound to null everywhere: the
+		// program still compiles, the base type name and the map dimension stay the same
+		q := cloneProg(p)
+		r := reachable(q)
+		referenced := map[string]bool{} // "STAGE.out"
+		nonNull := map[string]bool{}    // "STAGE.in" bound to something other than null
+		var walk func(pl *PipelineDef, e *Expr)
+		walk = func(pl *PipelineDef, e *Expr) {
+			if e == nil {
+				return
+			}
+			if e.Kind == ERef && !e.Self {
+				for _, c := range pl.Calls {
+					if c.Id == e.Call {
+						if len(e.Path) == 0 {
+							referenced[c.Callee+".*"] = true
+						} else {
+							referenced[c.Callee+"."+e.Path[0]] = true
+						}
+					}
+				}
+			}
+			for _, x := range e.Elems {
+				walk(pl, x)
+			}
+		}
+		for _, pl := range q.Pipelines {
+			for _, c := range pl.Calls {
+				for _, b := range c.Binds {
+					walk(pl, b.E)
+					if !(b.E != nil && b.E.Kind == ELit && b.E.Val == nil) || b.Split {
+						nonNull[c.Callee+"."+b.Param] = true
+					}
+				}
+				walk(pl, c.Disabled)
+			}
+			for _, b := range pl.Ret {
+				walk(pl, b.E)
+			}
+			for _, e := range pl.Retain {
+				walk(pl, e)
+			}
+		}
+		sel := plan.Draw(2)
+		flip := func(t Ty) (Ty, bool) {
+			// the innermost arrays (inside the map, if there is one) gain or lose a level
+			i := strings.IndexByte(t.Dims, 'm')
+			outer, inner := "", t.Dims
+			if i >= 0 {
+				outer, inner = t.Dims[:i+1], t.Dims[i+1:]
+			}
+			if len(inner) > 0 && (sel == 0 || len(inner) >= 2) {
+				return Ty{t.Base, outer + inner[1:]}, true
+			}
+			return Ty{t.Base, outer + inner + "a"}, true
+		}
+		for _, st := range q.Stages {
+			if !r[st.Name] || strings.HasPrefix(st.Name, "PFST") || referenced[st.Name+".*"] {
+				continue
+			}
+			for i, f := range st.Outs {
+				if referenced[st.Name+"."+f.Name] {
+					continue
+				}
+				retained := false
+				for _, rn := range st.Retain {
+					if rn == f.Name {
+						retained = true
+					}
+				}
+				if nt, ok := flip(f.T); ok && !retained {
+					st.Outs[i].T = nt
+					return q, "", true
+				}
+			}
+			for i, f := range st.Ins {
+				if nonNull[st.Name+"."+f.Name] {
+					continue
+				}
+				if nt, ok := flip(f.T); ok {
+					st.Ins[i].T = nt
+					return q, "", true
+				}
+			}
+		}
+		return nil, "", false
+	}},
 	{"semantic:toggle-split", true, func(p *Prog, plan *Tape) (*Prog, string, bool) {
 		q := cloneProg(p)
 		r := reachable(q)
